@@ -1,10 +1,12 @@
 import Driver.Util
 import Driver.Cache
+import Driver.IHexOps
+import Driver.ImageOps
 /-! JSON-lines driver: one request object per line on stdin, one response per line on stdout.
 `{"op": name, ...}` → `{"ok": ...}` | `{"err": class}` | `{"bad": message}` (malformed request). -/
 open Lean Driver
 
-def handlers : List (String → Json → Option (M Json)) := [CacheOps.handle]
+def handlers : List (String → Json → Option (M Json)) := [CacheOps.handle, IHexOps.handle, ImageOps.handle]
 
 def dispatch (j : Json) : Json :=
   match strField j "op" with
